@@ -123,6 +123,30 @@ def scalar_ops(ctx, op, dim):
         out = ctx.array("out", shape)
         k(filter_flux=out, field=f)
         ctx.eq(f"filter_flux_{a}=-(h^2/4)*d2/d{a}2", out[c], -(h * h / 4) * p.d(a).d(a)(*pt))
+    elif op.startswith("filter_callable:"):
+        # the callable the generator returns (the composition the simulators use), applied to a quadratic:
+        # L_a p = -(h^2/4) p_aa is a constant, so L_a L_b p = 0.  multiplicative: f - (L_z L_y L_x)^n f = p;
+        # convolution: prod_a (1 - L_a^n) p = p + (h^2/4) lap p for n = 1 and p for n >= 2; order 0 is the identity... of (1-1)
+        _, ftype, order, ft = op.split(":")
+        order = int(order)
+        shape = (2 * order + 3,) * 3
+        f = p.sample(ctx, shape, h, base)
+        c = _centre(shape)
+        pt = _point(c, nd, h, base)
+        buf1, buf2 = ctx.array("b1", shape), ctx.array("b2", shape)
+        k = spne.gen_laplacian_filter_kernel_3d(filter_order=order, filter_flux_buffer=buf1, field_buffer=buf2, real_t=ctx.real_t, num_threads=False, filter_type=ftype, field_type=ft)
+        lap = sum((p.d(a).d(a)(*pt) for a in "xyz"), 0.0)
+        expect = p(*pt) + ((h * h / 4) * lap if (ftype == "convolution" and order == 1) else 0.0)
+        if ft == "vector":
+            F = ctx.zeros((3, *shape))
+            for i in range(3):
+                F[i] = f * (i + 1)
+            k(vector_field=F)
+            for i in range(3):
+                ctx.eq(f"filtered_quadratic_at_an_interior_cell[{i}]", F[i][c], (i + 1) * expect)
+        else:
+            k(scalar_field=f)
+            ctx.eq("filtered_quadratic_at_an_interior_cell", f[c], expect)
     else:
         raise ValueError(op)
 
@@ -251,7 +275,7 @@ def main():
     chk = Check("C05", "consistency of every differential stencil with its continuous operator on polynomials with symbolic coefficients (z3, NRA identities)",
                 functions=["gen_diffusion_flux_pyst_kernel_2d/3d", "gen_inplane_field_curl_pyst_kernel_2d", "gen_outplane_field_curl_pyst_kernel_2d", "gen_curl_pyst_kernel_3d",
                            "gen_divergence_pyst_kernel_3d", "gen_update_vorticity_from_velocity_forcing_pyst_kernel_2d/3d", "gen_update_vorticity_from_penalised_velocity_pyst_kernel_2d/3d",
-                           "gen_vorticity_stretching_flux_pyst_kernel_3d", "1-D filter Laplacians of gen_laplacian_filter_kernel_3d", "gen_advection_flux_conservative_eno3_pyst_kernel_2d/3d",
+                           "gen_vorticity_stretching_flux_pyst_kernel_3d", "1-D filter Laplacians of gen_laplacian_filter_kernel_3d and the composed filter callables (both types, orders 1-3, scalar/vector)", "gen_advection_flux_conservative_eno3_pyst_kernel_2d/3d",
                            "FlowSimulator._init_domain (axis convention)"],
                 files=["sopht/numeric/eulerian_grid_ops/stencil_ops_2d/diffusion_flux_2d.py", "sopht/numeric/eulerian_grid_ops/stencil_ops_2d/inplane_field_curl_2d.py",
                        "sopht/numeric/eulerian_grid_ops/stencil_ops_2d/outplane_field_curl_2d.py", "sopht/numeric/eulerian_grid_ops/stencil_ops_2d/update_vorticity_from_velocity_forcing_2d.py",
@@ -284,6 +308,10 @@ def main():
             chk.add(vector_ops, real_t=rt, op=op, dim=3)
         for a in "xyz":
             chk.add(scalar_ops, real_t=rt, op=f"filter_laplacian_{a}", dim=3)
+        for ftype in ("multiplicative", "convolution"):
+            for order in ((1, 2) if chk.quick else (1, 2, 3)):
+                chk.add(scalar_ops, real_t=rt, op=f"filter_callable:{ftype}:{order}:scalar", dim=3)
+            chk.add(scalar_ops, real_t=rt, op=f"filter_callable:{ftype}:2:vector", dim=3)
     chk.bounds = ["all polynomials of total degree <= 2 (ENO3: + pure cubic term along the advection axis; sign-change case: linear field x linear velocity)",
                   "symbolic coefficients, spacing h>0, base point, prefactor; one interior cell of a 5^d (7^d for ENO3) grid (stencils are translation invariant by construction of the IR)"]
     chk.outside = ["boundary cells", "non-polynomial fields (second-order accuracy for smooth fields follows by Taylor's theorem, not re-proved)", "rounding"]
